@@ -1,6 +1,8 @@
 import WhVerif.Model.C13
 import WhVerif.Spec.C13
 import WhVerif.Lemmas.C13
+import WhVerif.Model.C13Header
+import WhVerif.Lemmas.C13Header
 /-!
 # C13 — unphase accepts every VCF, removes all phase information and nothing else
 
@@ -169,5 +171,142 @@ example : PhaseOnlyEdit [⟨["chr1"], [⟨some ⟨[some 0, some 1], false⟩, [(
   exact List.Perm.swap _ _ _
 example : ∀ r ∈ [(⟨["chr1"], [⟨some ⟨[some 1, some 0], true⟩, [("PS", "7")]⟩, ⟨some ⟨[none], false⟩, []⟩]⟩ : Record)],
     ∀ c ∈ r.calls, curSafe c = true := by decide
+
+/-! ## the header (`unphase_header`) and the whole file (`Model/C13Header.lean`) -/
+
+/-- **header_no_phase_definitions**: the output header (HEAD and repaired) defines none of the FORMAT keys HP, PQ, PS; the
+repaired one has no `##phasing` line either. -/
+theorem header_no_phase_definitions (h : List HLine) :
+    (∀ l ∈ unphaseHeaderCur h, isPhaseFormat l = false) ∧
+    (∀ l ∈ unphaseHeaderFix h, isPhaseFormat l = false ∧ isPhasing l = false) := by
+  refine ⟨?_, ?_⟩
+  · intro l hl
+    simpa using (List.mem_filter.mp hl).2
+  · intro l hl
+    have := (List.mem_filter.mp hl).2
+    rw [keepLine_eq] at this
+    simpa [and_comm] using this
+
+/-- **header_rest_unchanged**: nothing else happens to the header: the output is a sub-list of the input (same lines, same
+order) and every line that is neither a `##phasing` line nor one of the three FORMAT definitions survives; the repaired
+function removes exactly those lines. -/
+theorem header_rest_unchanged (h : List HLine) :
+    (unphaseHeaderCur h).Sublist h ∧ (unphaseHeaderCur h).filter keepLine = h.filter keepLine ∧
+    unphaseHeaderFix h = h.filter keepLine := by
+  refine ⟨(List.filter_sublist).trans (removeFirst_sublist _ _), ?_, rfl⟩
+  unfold unphaseHeaderCur
+  rw [List.filter_filter]
+  have : (removeFirst isPhasing h).filter (fun a => keepLine a && !isPhaseFormat a) = (removeFirst isPhasing h).filter keepLine := by
+    apply List.filter_congr
+    intro x _
+    rw [keepLine_eq]
+    cases isPhasing x <;> cases isPhaseFormat x <;> rfl
+  rw [this, filter_removeFirst isPhasing keepLine phasing_not_keep]
+
+/-- **header_idempotent** (repaired): applying `unphase_header` twice equals applying it once. -/
+theorem header_idempotent (h : List HLine) : unphaseHeaderFix (unphaseHeaderFix h) = unphaseHeaderFix h := by
+  unfold unphaseHeaderFix
+  rw [List.filter_filter]
+  apply List.filter_congr
+  intro x _
+  simp
+
+/-- **header_cur_idempotent_iff** (exact extent of F76): HEAD's `unphase_header` is idempotent on a header iff the header
+has at most one `##phasing` line — it removes only the first, a second application removes the next. -/
+theorem header_cur_idempotent_iff (h : List HLine) :
+    unphaseHeaderCur (unphaseHeaderCur h) = unphaseHeaderCur h ↔ (h.filter isPhasing).length ≤ 1 := by
+  have hstep : unphaseHeaderCur (unphaseHeaderCur h) = removeFirst isPhasing (unphaseHeaderCur h) := by
+    -- the second pass finds no FORMAT definition to remove
+    show (removeFirst isPhasing (unphaseHeaderCur h)).filter (fun l => !isPhaseFormat l) = _
+    apply List.filter_eq_self.mpr
+    intro x hx
+    have hx' : x ∈ unphaseHeaderCur h := (removeFirst_sublist _ _).subset hx
+    simpa using (List.mem_filter.mp hx').2
+  rw [hstep, removeFirst_eq_self_iff]
+  have hcount := count_phasing_cur h
+  constructor
+  · intro hall
+    have : (unphaseHeaderCur h).filter isPhasing = [] := List.filter_eq_nil_iff.mpr (fun x hx => by simp [hall x hx])
+    rw [this] at hcount
+    simp at hcount
+    omega
+  · intro hle x hx
+    cases hp : isPhasing x with
+    | false => rfl
+    | true =>
+      have : x ∈ (unphaseHeaderCur h).filter isPhasing := List.mem_filter.mpr ⟨hx, hp⟩
+      have hpos : 0 < ((unphaseHeaderCur h).filter isPhasing).length := List.length_pos_of_mem this
+      omega
+
+/-- with at most one `##phasing` line HEAD and the repaired function agree -/
+theorem header_cur_eq_fix (h : List HLine) (hle : (h.filter isPhasing).length ≤ 1) :
+    unphaseHeaderCur h = unphaseHeaderFix h := by
+  unfold unphaseHeaderCur unphaseHeaderFix
+  rw [removeFirst_eq_filter isPhasing h hle, List.filter_filter]
+  apply List.filter_congr
+  intro x _
+  rw [keepLine_eq, Bool.and_comm]
+
+/-- **F76** on the faithful model: two `##phasing` lines — the first application leaves the second one, the second
+application removes it: `unphase (unphase x) ≠ unphase x` -/
+example : unphaseHeaderCur [⟨"phasing", none, "##phasing=partial"⟩, ⟨"phasing", none, "##phasing=none"⟩]
+      = [⟨"phasing", none, "##phasing=none"⟩] ∧
+    unphaseHeaderCur (unphaseHeaderCur [⟨"phasing", none, "##phasing=partial"⟩, ⟨"phasing", none, "##phasing=none"⟩]) = [] := by
+  decide
+
+/-- **header_phase_only_edit**: headers that differ only in `##phasing` lines and HP/PQ/PS FORMAT definitions (what a
+phasing writer adds) have the same unphased header. -/
+theorem header_phase_only_edit (h h' : List HLine) (he : h'.filter keepLine = h.filter keepLine) :
+    unphaseHeaderFix h' = unphaseHeaderFix h := he
+
+/-- **output_declares_its_keys**: if the header of the input declares every FORMAT key its records use, so does the output
+(HEAD and repaired): no definition that an output record still needs is removed — htslib can serialise the result. -/
+theorem output_declares_its_keys (f : VcfFile) (hd : Declared f) :
+    Declared (unphaseFileCur f) ∧ Declared (unphaseFileFix f) := by
+  have key : ∀ r' ∈ unphase f.records, ∀ k ∈ recordKeys r', ∃ l ∈ f.header, (l.key == "FORMAT" && l.id == some k) = true ∧
+      keepLine l = true := by
+    intro r' hr' k hk
+    simp only [unphase, List.mem_map] at hr'
+    obtain ⟨r, hr, rfl⟩ := hr'
+    obtain ⟨hk1, hk2⟩ := recordKeys_unphase r k hk
+    have := hd r hr k hk1
+    unfold declares at this
+    obtain ⟨l, hl, hlk⟩ := List.any_eq_true.mp this
+    refine ⟨l, hl, hlk, ?_⟩
+    simp only [Bool.and_eq_true, beq_iff_eq] at hlk
+    rw [keepLine_eq]
+    have h1 : isPhasing l = false := by
+      unfold isPhasing; rw [hlk.1]; rfl
+    have h2 : isPhaseFormat l = false := by
+      unfold isPhaseFormat; rw [hlk.2]; simp [hk2]
+    simp [h1, h2]
+  refine ⟨?_, ?_⟩
+  · intro r' hr' k hk
+    obtain ⟨l, hl, hlk, hkeep⟩ := key r' hr' k hk
+    exact List.any_eq_true.mpr ⟨l, mem_cur_of_keep _ l hl hkeep, hlk⟩
+  · intro r' hr' k hk
+    obtain ⟨l, hl, hlk, hkeep⟩ := key r' hr' k hk
+    exact List.any_eq_true.mpr ⟨l, mem_fix_of_keep _ l hl hkeep, hlk⟩
+
+example : ∃ f : VcfFile, Declared f ∧ f.records ≠ [] ∧ f.header ≠ [] :=
+  ⟨⟨[⟨"FORMAT", some "GT", "##FORMAT=<ID=GT,…>"⟩, ⟨"FORMAT", some "PS", "##FORMAT=<ID=PS,…>"⟩],
+    [⟨[], [⟨some ⟨[some 0, some 1], true⟩, [("PS", "5")]⟩]⟩]⟩, by unfold Declared; decide, by decide, by decide⟩
+
+/-- **file_idempotent** (repaired): applying `unphase` twice to a file — header and records — equals applying it once;
+for HEAD this holds exactly when the header has at most one `##phasing` line. -/
+theorem file_idempotent (f : VcfFile) :
+    unphaseFileFix (unphaseFileFix f) = unphaseFileFix f ∧
+    (unphaseFileCur (unphaseFileCur f) = unphaseFileCur f ↔ (f.header.filter isPhasing).length ≤ 1) := by
+  refine ⟨?_, ?_⟩
+  · simp only [unphaseFileFix, header_idempotent, idempotent]
+  · simp only [unphaseFileCur, idempotent, VcfFile.mk.injEq, and_true]
+    exact header_cur_idempotent_iff f.header
+
+/-- **file_unphase_phase_eq_unphase**: a file whose records were only phase-edited and whose header only gained or lost
+`##phasing` lines / HP, PQ, PS definitions unphases to the same file. -/
+theorem file_unphase_phase_eq_unphase (f f' : VcfFile) (hr : PhaseOnlyEdit f.records f'.records)
+    (hh : f'.header.filter keepLine = f.header.filter keepLine) : unphaseFileFix f' = unphaseFileFix f := by
+  simp only [unphaseFileFix, unphase_phase_eq_unphase hr, header_phase_only_edit _ _ hh]
+
 
 end WhVerif.Props.C13
